@@ -218,6 +218,14 @@ impl C15 {
         let mut img = ctx.rng.bytes(round8(size));
         put32(&mut img, 0, id);
         put32(&mut img, 4, size as u32);
+        if t >= 7 + 2 * NDST && ctx.rng.chance(3, 4) {
+            // built-in kinds: a conformant body's prefix (plausible fixed fields
+            // such as entry sizes and versions), so that the accessors get past
+            // their own sanity checks whatever the tag size is
+            let b = crate::gen::body(&mut ctx.rng, id);
+            let n = b.len().min(size.saturating_sub(8));
+            img[8..8 + n].copy_from_slice(&b[..n]);
+        }
         if id == 7 && img.len() > 555 {
             img[555] = ctx.rng.below(8) as u8; // VBE memory_model: defined values only (known finding otherwise)
         }
@@ -318,7 +326,7 @@ impl C15 {
         if t >= 7 + 2 * NDST {
             let min = crate::spec::sized_view_size(id).unwrap_or(0);
             let reg = Region::new_slack(ctx.placement, &img, min);
-            let opts = crate::exercise::Opts { debug: false, debug_whole: false };
+            let opts = crate::exercise::Opts { debug: false, debug_whole: false, strict_extent: true };
             let mut tr = crate::exercise::Tr::new(false, false);
             crate::exercise::standalone(ctx, &reg, &mut tr, &opts, &img);
             ctx.eval();
